@@ -10,9 +10,10 @@ def run(ctx):
     beh = mc.gen_meta(ctx, "beh.ndjson", n, 12, True, False, False, '{"label", "delete", "download"}')
     big = mc.gen_meta(ctx, "big.ndjson", 30 if ctx.thorough else 4, 6, True, False, False, '{"label"}',
                       bulks="{1001, 2001}" if ctx.thorough else "{1001}", maxbundles=2, seed=ctx.seed + 3)
-    cfgs = [["--leaf", "64", "--conc", "4"] + (["--crc"] if ctx.seed % 2 else [])]
+    cfgs = [["--leaf", "4096", "--conc", "4"] + (["--crc"] if ctx.seed % 2 else []),
+            ["--leaf", "64", "--conc", "2", "--batch", "1", "--final-download=false"]]
     if ctx.thorough:
-        cfgs += [["--leaf", "4096", "--conc", "1", "--crc"], ["--leaf", "64", "--conc", "20", "--batch", "1"]]
+        cfgs += [["--leaf", "4096", "--conc", "1", "--crc", "--batch", "2"], ["--leaf", "64", "--conc", "20", "--batch", "3"]]
     jobs = mc.replay_jobs(ctx, beh, cfgs) + mc.replay_jobs(ctx, big, [["--leaf", "64", "--conc", "8"]], prefix="big")
     results = vlib.parallel(jobs, max_workers=8)
     return mc.finish(ctx, results,
